@@ -196,6 +196,9 @@ def check_cigar(cols, lead_seg, tail_seg, ref_off, opt):
                                    include_terminal_gaps=include_term)
     if got != want:
         return f"CIGAR {got!r}, expected {want!r} for trace {trace} (options {opt})"
+    if opt == 0 and write_alignment_to_cigar(aln) != want:
+        # documented defaults: no introns, matches not distinguished, soft clipping, terminal gaps omitted
+        return f"CIGAR with default options {write_alignment_to_cigar(aln)!r}, expected {want!r}"
     tuples = write_alignment_to_cigar(aln, introns=introns, distinguish_matches=distinguish, hard_clip=hard,
                                       include_terminal_gaps=include_term, as_string=False)
     # read back: position = first reference base covered; hard clipping removes the clipped bases from the segment
